@@ -22,12 +22,13 @@ import (
 // ---- family: closetab (C06) ----
 
 type closeRow struct {
-	Dir  string `json:"dir"`
-	Code int    `json:"code"`
-	Rlen int    `json:"rlen"`
-	Peer string `json:"peer"`
-	Pre  string `json:"pre"` // what the local reader has consumed when Close is called (spec/WSCloseRows.tla LocalStates)
-	Exp  struct {
+	Dir   string `json:"dir"`
+	Code  int    `json:"code"`
+	Rlen  int    `json:"rlen"`
+	Peer  string `json:"peer"`
+	Rkind string `json:"rkind"` // content class of the reason: ascii | badutf8 (bytes that are not valid UTF-8, between valid ones)
+	Pre   string `json:"pre"`   // what the local reader has consumed when Close is called (spec/WSCloseRows.tla LocalStates)
+	Exp   struct {
 		O    string `json:"o"`
 		Code int    `json:"code"`
 		Echo bool   `json:"echo"`
@@ -117,7 +118,7 @@ func runCloseSend(rep *Report, cc closeCase) {
 	if !closePre(rep, cc, c, raw) {
 		return
 	}
-	reason := strings.Repeat("r", cc.Row.Rlen)
+	reason := reasonBytes(cc.Row.Rkind, "r", cc.Row.Rlen)
 	peerDone := make(chan []ws.Frame, 1)
 	go func() {
 		// raw peer: read frames until EOF; answer the first Close frame per row.Peer
@@ -227,6 +228,18 @@ func runCloseSend(rep *Report, cc closeCase) {
 
 var closeNilNoEcho int64
 
+// reasonBytes builds a close reason of exactly n bytes of the given content class. The length limits of RFC 6455 are in
+// bytes and the reason travels verbatim: what a byte string "is" as UTF-8 must not change how many bytes go on the wire.
+func reasonBytes(kind, unit string, n int) string {
+	if n <= 0 {
+		return ""
+	}
+	if kind != "badutf8" {
+		return strings.Repeat(unit, n)
+	}
+	return strings.Repeat(unit+"\xff", n/2+1)[:n]
+}
+
 func countOp(fs []ws.Frame, op int) int {
 	n := 0
 	for _, f := range fs {
@@ -251,7 +264,7 @@ func runCloseRecv(rep *Report, cc closeCase) {
 	case cc.Row.Rlen == -2:
 		p = []byte{3}
 	default:
-		reason = strings.Repeat("q", cc.Row.Rlen)
+		reason = reasonBytes(cc.Row.Rkind, "q", cc.Row.Rlen)
 		p = ws.ClosePayload(cc.Row.Code, reason)
 	}
 	f := ws.Frame{Fin: true, Op: ws.OpClose, Masked: !cc.Client, Key: [4]byte{9, 8, 7, 6}, Payload: p}
